@@ -307,3 +307,77 @@ pub fn run_blocks<C: 'static>(
     }
     run_isolated(items, &args.out, prefix)
 }
+
+// ---------------------------------------------------------------------------
+// watchdog: run `f` in a forked child; a call that blocks for ever is killed and reported as a hang
+
+pub enum Watched {
+    Done(String),
+    Hang,
+    /// the child did not exit normally (wait status)
+    Died(i32),
+}
+
+pub fn watchdog(timeout_ms: i32, f: impl FnOnce() -> String) -> Watched {
+    use std::io::Write;
+    let mut fds = [0i32; 2];
+    assert_eq!(unsafe { libc::pipe(fds.as_mut_ptr()) }, 0, "pipe");
+    std::io::stdout().flush().ok();
+    std::io::stderr().flush().ok();
+    let pid = unsafe { libc::fork() };
+    assert!(pid >= 0, "fork");
+    if pid == 0 {
+        unsafe { libc::close(fds[0]) };
+        let s = f();
+        let b = s.as_bytes();
+        let mut off = 0;
+        while off < b.len() {
+            let n = unsafe { libc::write(fds[1], b[off..].as_ptr() as *const _, b.len() - off) };
+            if n <= 0 {
+                break;
+            }
+            off += n as usize;
+        }
+        unsafe { libc::_exit(0) };
+    }
+    unsafe { libc::close(fds[1]) };
+    let mut out = Vec::new();
+    let t0 = std::time::Instant::now();
+    let mut hang = false;
+    loop {
+        let left = timeout_ms as i64 - t0.elapsed().as_millis() as i64;
+        if left <= 0 {
+            hang = true;
+            break;
+        }
+        let mut pfd = libc::pollfd { fd: fds[0], events: libc::POLLIN, revents: 0 };
+        let rc = unsafe { libc::poll(&mut pfd, 1, left as i32) };
+        if rc == 0 {
+            hang = true;
+            break;
+        }
+        if rc < 0 {
+            continue;
+        }
+        let mut buf = [0u8; 4096];
+        let n = unsafe { libc::read(fds[0], buf.as_mut_ptr() as *mut _, buf.len()) };
+        if n <= 0 {
+            break; // EOF: the child is done (or dead)
+        }
+        out.extend_from_slice(&buf[..n as usize]);
+    }
+    unsafe { libc::close(fds[0]) };
+    if hang {
+        unsafe { libc::kill(pid, libc::SIGKILL) };
+    }
+    let mut status = 0;
+    unsafe { libc::waitpid(pid, &mut status, 0) };
+    if hang {
+        return Watched::Hang;
+    }
+    if libc::WIFEXITED(status) && libc::WEXITSTATUS(status) == 0 {
+        Watched::Done(String::from_utf8_lossy(&out).to_string())
+    } else {
+        Watched::Died(status)
+    }
+}
